@@ -13,6 +13,7 @@ import json
 import os
 import shutil
 import tempfile
+import time
 from ipaddress import IPv4Address
 
 import common
@@ -969,7 +970,13 @@ def exec_history(drv, kind, init_file, ops):
 def shrink(drv, kind, init, ops, key):
     """Greedy minimisation of a failing history: drop the initial file, then single operations,
     then single services, as long as the same class of failure remains."""
+    global SHRINK_SPENT
+    t0 = time.time()
+
     def fails(i, o):
+        # bounded: 20 s per failing class, 90 s per run
+        if time.time() - t0 > 20 or SHRINK_SPENT + (time.time() - t0) > 90:
+            return False
         try:
             return any(k == key for k, _ in exec_history(drv, kind, i, o).errors)
         except Exception:
@@ -1001,7 +1008,11 @@ def shrink(drv, kind, init, ops, key):
                         ops = cand
                         progress = True
                         break
+    SHRINK_SPENT += time.time() - t0
     return {"kind": kind, "initial_file": list_file(init), "ops": ops}
+
+
+SHRINK_SPENT = 0.0
 
 
 def small_alphabet():
